@@ -435,16 +435,26 @@ def monCancellable (cfg : Cfg) (prev : State) (op : Option Op) (ok : Bool) : Boo
     | _, _, _ => true
   | _ => true
 
+/-- the owner's live market-making orders in a pair, taken from the ORDER records (not from the code's MM index, which is
+exactly what a defect in this mechanism may corrupt) -/
+def liveMM (r : State) (a u p : Nat) : List Order :=
+  r.orders.filter fun o => o.app == a && o.pair == p && o.owner == u && o.typ == .mm && o.status.live
+
+/-- "cancelling or replacing market-making orders cancels every previously placed market-making order of that owner in
+that pair": (1) after an ACCEPTED cancel / replace none of the owner's previously live MM orders of the pair is still live;
+(2) a cancel by an owner who has live MM orders there, none of them placed in the current batch, must be accepted. -/
 def monMMCancelAll (prev cur : State) (op : Option Op) (ok : Bool) : Bool :=
-  let chk := fun (a u p : Nat) =>
-    match findBy (isMM a p u) prev.mm with
-    | none => true
-    | some idx => idx.ids.all fun i => match cur.order? (a, p, i) with
+  let allEnded := fun (a u p : Nat) =>
+    (liveMM prev a u p).all fun o => match cur.order? o.key with
       | none => true
-      | some o => !o.status.live
+      | some o' => !o'.status.live
+  let mustAccept := fun (a u p : Nat) =>
+    match prev.pair? a p with
+    | none => false
+    | some pp => !(liveMM prev a u p).isEmpty && (liveMM prev a u p).all fun o => o.batch != pp.curBatch
   match op with
-  | some (.cancelMM a u p) => !ok || chk a u p
-  | some (.mmOrder a u p ..) => !ok || chk a u p
+  | some (.cancelMM a u p) => if ok then allEnded a u p else !mustAccept a u p
+  | some (.mmOrder a u p ..) => !ok || allEnded a u p
   | _ => true
 
 def monitors (st : St) (cur : State) : List String :=
